@@ -3,6 +3,7 @@ heartbeat_merge / heartbeat_reduce and the real ingestion loop through a bucket,
 Unit in the traces: half a tick (tick = `scale` ms), so pulsetimes of half a tick are integers."""
 import copy
 import itertools
+import json
 import os
 import random
 import shutil
@@ -73,7 +74,7 @@ def run_pure(args):
     rnd = random.Random(seed)
     cz = Cz(rnd)
     tr = []
-    for c in cases:
+    def one_case(c):
         if c[0] == "merge":
             _, e1, e2, p2 = c
             a, b = cz.ev(e1, Event), cz.ev(e2, Event)
@@ -87,6 +88,12 @@ def run_pure(args):
             again = heartbeat_reduce(copy.deepcopy(out), cz.pul(p2))
             tr.append({"op": "reduce", "inp": [h2(e) for e in lst], "P": p2, "out": [cz.proj(e) for e in out],
                        "again": [cz.proj(e) for e in again]})
+
+    for c in cases:
+        try:
+            one_case(c)
+        except Exception as e:      # no input of these grids makes the unchanged transforms raise
+            tr.append({"op": "raised", "fn": c[0], "exc": type(e).__name__, "inp": json.dumps(c[1:], default=str)[:300]})
     return tr
 
 
@@ -170,7 +177,13 @@ def _loop_worker(args):
     out = []
     try:
         for n, (key, stream, p2) in enumerate(jobs):
-            out.append({"backend": kind, "key": key, "stream": stream, "P": p2, "trace": run_loop(ds, kind, rnd, "%s-%d" % (key, n), stream, p2)})
+            try:
+                trace = run_loop(ds, kind, rnd, "%s-%d" % (key, n), stream, p2)
+            except Exception as e:      # the client loop never raises on the unchanged stores; the (partial) run is judged as a raise
+                trace = [{"op": "raised", "fn": "loop", "exc": type(e).__name__, "inp": json.dumps(stream)[:300]}]
+                store.close_datastore(kind, ds)
+                ds = store.mk_datastore(kind, common.scratch_dir("h%d_%s_%d_%d" % (os.getpid(), kind, seed % 100000, n)))
+            out.append({"backend": kind, "key": key, "stream": stream, "P": p2, "trace": trace})
     finally:
         store.close_datastore(kind, ds)
         shutil.rmtree(root, ignore_errors=True)
